@@ -30,6 +30,30 @@ def lib_functions(db):
                    and f.body is not None and f.body >= 0], key=lambda f: (f.file, f.line, f.mangled))
 
 
+class SerializeOnly:
+    """forwards only the serialize() instances of C06-R4 to a rule of this check"""
+    def __init__(self, rule):
+        self.rule = rule
+        self.rid = rule.rid
+        self.instances = rule.instances
+
+    def _fw(self, kind, site, *a):
+        if "::serialize:" in site:
+            getattr(self.rule, kind)(site, *a)
+
+    def ok(self, site, *a):
+        self._fw("ok", site, *a)
+
+    def bad(self, site, *a):
+        self._fw("bad", site, *a)
+
+    def unknown(self, site, *a):
+        self._fw("unknown", site, *a)
+
+    def guard(self, *a, **k):
+        return self.rule.guard(*a, **k)
+
+
 def body(chk, db, cfgname):
     thr = Throws(db)
     fns = lib_functions(db)
@@ -304,6 +328,11 @@ def body(chk, db, cfgname):
     from pv.check import ViewCheck
     from checks import c18
     c18.body(ViewCheck(chk, {"C18-R1": r6, "C18-R2": r6}), db, cfgname)
+
+    # ------------------------------------------------------------------ R7: members of objects received from another rank
+    r7 = chk.rule("C17-R7", "no data member of an object that is sent between ranks by value is left out of its serialize(): the receiving rank would read it uninitialised (rule C06-R4, serialize instances)", "F4 effect vs sync set (rule C06-R4)", 3)
+    from checks import c06
+    c06.body(ViewCheck(chk, {"C06-R4": SerializeOnly(r7)}), db, cfgname)
 
     chk.undecided.append("arithmetic overflow (1<<IndexSize), use before prepare/compute, lifetime of leaked raw pointers; UB classes outside the anchored mechanisms")
     chk.note("assumed (not checked): FieldOperator::getPartFrom*Index look-ups rely on the bimap invariant established by prepare (C07-R5)")
